@@ -75,12 +75,18 @@ class Ref:
             with np.errstate(all="ignore"):
                 pm = self.d.pdf(ks)
             pm = np.where(np.isfinite(pm), pm, 0.0)
+            self.total_int = float(pm.sum())  # the documented density summed over the integers (1 + discretisation error)
             self._cum = np.cumsum(pm) / pm.sum()
             self._grid = hi
         k = int(math.floor(x))
         if k < 0:
             return 0.0
         return float(self._cum[min(k, self._grid)])
+
+    def int_total(self):
+        """sum of the documented Schulz-Zimm density over the integers"""
+        self.cdf_int(1.0)
+        return self.total_int
 
     def pmf(self, k):
         f = self.family
@@ -89,7 +95,8 @@ class Ref:
         if f == "flory_schulz":
             return self.a ** 2 * k * (1 - self.a) ** (k - 1) if k >= 1 else 0.0
         if f == "schulz_zimm":
-            return float(self.d.pdf(k)) if k > 0 else 0.0
+            # M = 0: the documented formula gives 0 for z > 1 and 1/Mn for z == 1 (0^0 = 1)
+            return float(self.d.pdf(k)) if (k > 0 or (k == 0 and self.z == 1.0)) else 0.0
         raise ValueError
 
     def pdf(self, x):
